@@ -859,6 +859,9 @@ def run(tier):
             except Exception as e:
                 rep.tie_broken(f"sweep generator failed on seed {nm}: {e!r}", nm)
         sweep += [("image",) + x for x in footer_length_images()]
+        # extreme truncations (the empty file included: the only input on which mmap() itself fails); every case is
+        # opened both with and without an error record by the driver
+        sweep += [(cq_first, byname[cq_first][:k], f"truncation:{k}") for k in range(0, 17)]
         scases = [(nm, m, label, mode, ("M/R1000" if i % 2 else "M/B64,0")) for i, (nm, m, label) in enumerate(sweep) for mode in range(3)]
         image_codes = {}
         for a in range(0, len(scases), 1500):
